@@ -9,7 +9,7 @@ from hypothesis import strategies as st
 from vlib import gen, ring
 from vlib.build import make_cds, make_record
 from vlib.runner import Violation, code_under_test
-from checks.c03_protoclusters import _build_ruleset, detection_specs, extender_specs
+from checks.c03_protoclusters import _build_ruleset, detection_specs, extender_specs, hmmsearch_from_spec
 
 PROPERTY_ID = "C07"
 LEVEL = "exploration"
@@ -81,7 +81,7 @@ def _summaries(spec: dict, rule_subset=None, rule_order=None) -> dict:
             chosen = [rule for rule in chosen if rule["name"] in rule_subset]
         run_spec = dict(spec, rules=chosen)
     ruleset = _build_ruleset(run_spec, strip_superiors=False)
-    with code_under_test("detection_total"):
+    with hmmsearch_from_spec(run_spec), code_under_test("detection_total"):
         results = cluster_prediction.detect_protoclusters_and_signatures(record, ruleset)
 
     def names(location) -> frozenset:
@@ -251,7 +251,7 @@ def _summaries_no_areas(spec: dict, rule_subset=None, rule_order=None) -> dict:
     if rule_subset is not None:
         chosen = [rule for rule in chosen if rule["name"] in rule_subset]
     ruleset = _build_ruleset(dict(spec, rules=chosen), strip_superiors=False)
-    with code_under_test("detection_total"):
+    with hmmsearch_from_spec(spec), code_under_test("detection_total"):
         results = cluster_prediction.detect_protoclusters_and_signatures(record, ruleset)
     out: dict = {}
     for proto in results.protoclusters:
